@@ -151,7 +151,7 @@ def c04(tier):
 
 
 def c02(tier):
-    combos = [(0, 6, 0), (1, 2, 0)] if tier == "quick" else [(0, 6, 0), (0, 12, 0), (1, 2, 0), (1, 3, 1)]
+    combos = [(0, 6, 0), (1, 2, 0)] if tier == "quick" else [(0, 6, 0), (0, 12, 0), (1, 2, 0), (1, 2, 1)]
     jobs = [Job("h_c02::delivery", c, dict(S2), budget_s=4000, validate=30) for c in combos]
     jobs.append(Job("h_c02::dedup_across_packs", (), dict(S2), budget_s=600, validate=1))
     jobs.append(Job("h_c02::own_pack_required", (), dict(S2), budget_s=600, validate=10))
@@ -251,7 +251,7 @@ def c01(tier):
 
 
 def c12(tier):
-    combos = [(10, 0), (2, 1)] if tier == "quick" else [(10, 0), (2, 1), (5, 1)]
+    combos = [(10, 0), (2, 1)] if tier == "quick" else [(10, 0), (2, 1), (3, 1)]
     jobs = [Job("h_c12::maintenance", c, dict(S2), budget_s=3000, validate=30) for c in combos]
     # the same with object / descriptor caches of capacity 1: after commit the values come from storage through the pack index
     jobs.append(Job("h_c12::maintenance", (10, 0, 1), dict(S2), budget_s=3000, validate=20))
